@@ -3,7 +3,9 @@
 # Default: on a scratch worktree of /repo under /tmp (PURL_REPO), so that /repo itself is never touched and other runs are not disturbed.
 # With SEED_IN_PLACE=1: apply to /repo (git -C /repo apply), run, and restore it straight afterwards (git -C /repo checkout -- .).
 id="$1"; shift
-cd /verif
+# VERIF_HOME: run the checks of another copy of /verif (e.g. a snapshot, so that edits in /verif do not disturb a long run)
+home="${VERIF_HOME:-/verif}"
+cd "$home"
 if [ -n "$SEED_IN_PLACE" ]; then
   git -C /repo apply /verif/seeded/$id/patch.diff || { echo "patch does not apply"; exit 3; }
 else
